@@ -86,6 +86,10 @@ KIND = {
     "cotan_weights": ("scalar", 0), "vertex_normals": "unit", "angle_defects": ("scalar", 0), "degree": ("scalar", 0),
     "cell_volume": ("scalar", 3), "cell_barycenter": "point",
 }
+NICE_FACTORS = [(2.0, "2"), (0.5, "1/2"), (3.0, "3"), (1 / 3.0, "1/3"), (4.0, "4"), (0.25, "1/4"), (6.0, "6"), (1 / 6.0, "1/6"),
+                (-1.0, "-1"), (8.0, "8"), (0.125, "1/8"), (12.0, "12"), (1 / 12.0, "1/12"), (math.pi, "pi"), (1 / math.pi, "1/pi")]
+# attributes created by the mesh classes' own lazy boundary / adjacency machinery (not by the quantity functions)
+INFRA = {("vertices", "border"), ("edges", "border"), ("edges", "hard_edges"), ("cell_faces", "adjacent_cell")}
 CONTAINERS = ["vertices", "edges", "faces", "face_corners", "cells", "cell_corners", "cell_faces"]
 
 
@@ -104,7 +108,7 @@ def cases(seed, tier):
         for i in range(n):
             d = {"gen": kind, "seed": rng.randrange(2 ** 31), "max_size": sizes[i % len(sizes)],
                  "vrows": vrows[k % 4], "irows": irows[(k // 4) % 3],
-                 "extreme_scale": (i % 6 == 5)}
+                 "extreme_scale": (i % 6 == 5), "sample": i in (1, 2)}
             if kind == "poly":
                 d["source"] = "planar" if i % 2 == 0 else "zoo"
             if kind == "tet":
@@ -249,7 +253,8 @@ def snapshot(m):
             continue
         try:
             for name in list(cont.attributes):
-                out.add((c, str(name)))
+                if (c, str(name)) not in INFRA:
+                    out.add((c, str(name)))
         except Exception:
             pass
     return out
@@ -290,7 +295,10 @@ def classify(got, exp, bad, judged):
         if nb == nj and nb >= 2 and np.all(nz):
             r = g / e
             if np.max(np.abs(r - r[0])) <= 1e-6 * abs(r[0]):
-                return "all_values_off_by_constant_factor_%s" % ("%.3g" % r[0])
+                for nice, label in NICE_FACTORS:
+                    if abs(r[0] - nice) <= 1e-6 * abs(nice):
+                        return "all_values_off_by_factor_" + label
+                return "all_values_off_by_a_common_factor"
         if nb == nj and nb >= 2:
             d = g - e
             if np.max(np.abs(d - d[0])) <= 1e-6 * (abs(d[0]) + 1e-300):
@@ -306,7 +314,7 @@ def classify(got, exp, bad, judged):
             cosang = np.sum(got[bad] * exp[bad], axis=1) / (ng * ne)
             if np.all(cosang > 1 - 1e-12) and np.all(np.abs(ng - ne) > 1e-9 * ne):
                 return "vectors_have_wrong_length_right_direction"
-    return "all_values_differ" if nb == nj else "some_values_differ"
+    return "values_differ"
 
 
 def compare(ctx, monitor, op, got, exp, tol, judged=None, what="", **wit):
@@ -764,8 +772,12 @@ def interpolation_constants(ctx, env, rng, kind):
                     continue
                 exp2 = np.full(sizes[dst], c2) if dim == 1 else np.tile(np.array(c2, float), (sizes[dst], 1))
                 scale2 = max(scale, abs(c2) if dim == 1 else float(np.max(np.abs(c2))))
-                compare(ctx, "reuse", "interp_constant_into_used_output/" + site, arr2, exp2, REL * 10 * scale2,
-                        what="second interpolation into the same output attribute", constant=c2, previous_constant=cval)
+                ctx.obs("reuse", "interp_constant_into_used_output/" + site, sizes[dst])
+                err2 = np.abs(arr2 - exp2)
+                if not bool(np.all(err2 <= REL * 10 * scale2)):
+                    ctx.violation("reuse", "interp_constant_into_used_output/" + site, "previous_content_of_output_attribute_leaks_into_result",
+                                  "%s called a second time with the same output attribute does not return the new constant" % site,
+                                  constant=c2, previous_constant=cval, got=arr2[:4], output_storage=out_storage)
 
 
 def history_pass(ctx, env, R, funcs, rng, judge):
@@ -971,12 +983,19 @@ def run_surface(desc, ctx):
             metamorphic(ctx, "scale", env, envS, SURF_FUNCS, R, base, rng, ident, np.eye(3), np.zeros(3), s, tolm, judgeable)
             transformed_globals(ctx, "scale", env, envS, R, np.eye(3), np.zeros(3), s, tolm, "surface")
 
-    if len(F) <= 4 and base.get("corner_angles") is not None:
-        smp = {"vertices": np.round(V, 6).tolist(), "faces": F, "class": z["cls"],
-               "library": {k: np.round(base[k], 9).tolist() for k in ("edge_length", "face_area", "corner_angles") if k in base},
-               "reference": {"face_area": np.round(R.area, 9).tolist(), "chi": R.chi},
-               "compared": "%d quantity functions x 4 option combinations, identities, interpolation constants, rigid copy, scale %.3g" % (len(base), s)}
-        ctx.sample(smp)
+    if desc.get("sample") and base.get("corner_angles") is not None and env.CN is not None:
+        f0 = F[0]
+        cs = [c for c, (v, f) in enumerate(env.CN) if f == 0]
+        lib = {"corner_angles_of_face_0": [round(float(base["corner_angles"][c]), 9) for c in cs]}
+        ref = {"corner_angles_of_face_0": [round(R.angle[(0, env.CN[c][0])], 9) for c in cs]}
+        for k, rv in (("face_area", R.area), ("face_normals", R.normal), ("face_barycenter", R.fbary)):
+            if k in base:
+                lib[k + "[0]"] = np.round(base[k][0], 9).tolist()
+                ref[k + "[0]"] = np.round(rv[0], 9).tolist()
+        ctx.sample({"class": z["cls"], "n_vertices": len(V), "n_faces": len(F), "chi": R.chi, "border_edges": len(R.border_edges),
+                    "face_0": f0, "face_0_points": np.round(V[f0], 6).tolist(), "library": lib, "reference": ref,
+                    "also_compared": "%d quantity/option keys x 4 (persistent,dense) combos, identities, 6 interpolation routines, "
+                                     "shared-mesh pass, rigid copy, scale %.3g" % (len(base), s)})
 
 
 def edge_map(EA, EB, perm):
@@ -1072,11 +1091,12 @@ def run_volume(desc, ctx):
         if tolm <= 1e-5:
             metamorphic(ctx, "scale", env, envS, VOL_FUNCS, R, base, rng, ident, np.eye(3), np.zeros(3), s, tolm, judgeable)
             transformed_globals(ctx, "scale", env, envS, R, np.eye(3), np.zeros(3), s, tolm, "volume")
-    if len(C) <= 2 and "cell_volume" in base:
-        ctx.sample({"vertices": np.round(V, 6).tolist(), "cells": C, "class": z["cls"],
-                    "library": {"cell_volume": np.round(base["cell_volume"], 12).tolist()},
-                    "reference": {"cell_volume": np.round(R.volume, 12).tolist()},
-                    "compared": "8 quantity functions x 4 option combinations, global means, rigid copy, scale %.3g" % s})
+    if desc.get("sample") and "cell_volume" in base:
+        ctx.sample({"class": z["cls"], "n_vertices": len(V), "n_cells": len(C), "cell_0": C[0], "cell_0_points": np.round(V[C[0]], 6).tolist(),
+                    "library": {"cell_volume[0]": float(base["cell_volume"][0]),
+                                "cell_barycenter[0]": np.round(base.get("cell_barycenter", np.zeros((1, 3)))[0], 9).tolist()},
+                    "reference": {"cell_volume[0]": float(R.volume[0]), "cell_barycenter[0]": np.round(R.cbary[0], 9).tolist()},
+                    "also_compared": "8 quantity functions x 4 (persistent,dense) combos, global means, shared-mesh pass, rigid copy, scale %.3g" % s})
 
 
 def run_case(desc, ctx):
